@@ -52,7 +52,7 @@ package varmq
 //@      && ((w.status == running || w.status == paused) ==> w.eventLoopSignal != nil && $open(w.eventLoopSignal) && $cap(w.eventLoopSignal) >= 1
 //@                                     && w.errorChan != nil && $open(w.errorChan) && w.$disp == 1 && w.$listeners == (w.ctx != nil ? 1 : 0))
 //@      && (w.status == stopped ==> w.eventLoopSignal == nil && w.errorChan == nil && w.$disp == 0 && w.pool.List.len == 0 && w.$listeners == 0 && w.curProcessing == 0)
-//@      && ((w.ctx != nil) <==> (w.cancel != nil)) && ((w.ctx != nil) <==> (w.Configs.ctx != nil))
+//@      && ((w.ctx != nil) <==> (w.cancel != nil)) && ((w.ctx != nil) <==> (w.Configs.ctx != nil)) && (w.ctx != nil ==> $parentOf(w.ctx) == w.Configs.ctx)
 //@      && (w.eventLoopSignal == nil || w.eventLoopSignal != w.errorChan)
 //@      && (w.$armed > 0 ==> w.status == stopped)
 
@@ -134,11 +134,6 @@ package varmq
 //@   ensures [none] w.ctx == nil ==> w.$listeners == old(w.$listeners)
 //@   ensures [one]  w.ctx != nil ==> w.$listeners == old(w.$listeners) + 1
 //@   ghost at go varmq.worker.goListenToContext$1: w.$listeners := w.$listeners + 1
-
-// The context listener: when the context is done it stops the worker.
-//@ func worker.goListenToContext$1
-//@   props C14
-//@   requires $deref(w) != nil
 
 // initPoolNode takes a node from the cache, starts its goroutine and hands it to the caller (it is in no list).
 //@ func worker.initPoolNode
@@ -392,3 +387,262 @@ package varmq
 //@   ensures [ri]         RI_worker(w)
 //@   loop 1: invariant [pool] PoolOK(w) && shrinkPoolSize >= 0 && shrinkPoolSize <= oldConcurrency - safeConcurrency && w.pool.List.len <= old(w.pool.List.len)
 //@                              && old(w.pool.List.len) - w.pool.List.len == (oldConcurrency - safeConcurrency) - shrinkPoolSize
+
+// ---------------------------------------------------------------- construction
+// A new worker is Initiated: both channels exist and are open (the signal channel is buffered, so a wake-up cannot be lost), no
+// goroutine has been started, the idle list is empty, the limit is the configured one (>= 1), and ctx/cancel exist iff a context was configured.
+//@ func newWorker
+//@   props C14 C02 C03 C18
+//@   requires wf != nil
+//@   modifies $usercalls, $alloc
+//@   ensures [fresh] $fresh(result) && result.status == initiated && result.$disp == 0 && result.$listeners == 0 && result.$armed == 0 && result.$reapers == 0 && result.curProcessing == 0
+//@   ensures [ri]    RI_worker(result)
+//@   ghost at return: result.$disp := 0
+//@   ghost at return: result.$listeners := 0
+//@   ghost at return: result.$armed := 0
+//@   ghost at return: result.$reapers := 0
+
+//@ func newErrWorker
+//@   props C14 C02 C03 C18
+//@   requires wf != nil
+//@   modifies $usercalls, $alloc
+//@   ensures [fresh] $fresh(result) && result.status == initiated && result.$disp == 0 && result.$listeners == 0 && result.$armed == 0 && result.$reapers == 0 && result.curProcessing == 0
+//@   ensures [ri]    RI_worker(result)
+//@   ghost at return: result.$disp := 0
+//@   ghost at return: result.$listeners := 0
+//@   ghost at return: result.$armed := 0
+//@   ghost at return: result.$reapers := 0
+
+//@ func newResultWorker
+//@   props C14 C02 C03 C18
+//@   requires wf != nil
+//@   modifies $usercalls, $alloc
+//@   ensures [fresh] $fresh(result) && result.status == initiated && result.$disp == 0 && result.$listeners == 0 && result.$armed == 0 && result.$reapers == 0 && result.curProcessing == 0
+//@   ensures [ri]    RI_worker(result)
+//@   ghost at return: result.$disp := 0
+//@   ghost at return: result.$listeners := 0
+//@   ghost at return: result.$armed := 0
+//@   ghost at return: result.$reapers := 0
+
+// The context listener: when the (captured) context is done it calls Stop once.
+//@ func worker.goListenToContext$1
+//@   props C14
+//@   requires c != nil && $deref(w) != nil && RI_worker($deref(w)) && (forall q ref {$lenOf(q)} :: $lenOf(q) >= 0) && (forall t ref {$tickerStopped[t]} :: $tickerStopped[t] >= 0)
+//@   modifies $deref(w).status, $deref(w).curProcessing, $lenOf, $alloc, linkedlist.Node.next, linkedlist.Node.prev, $deref(w).pool.List.len, $deref(w).pool.List.$at, $deref(w).pool.List.$pos, $deref(w).pool.List.$in,
+//@            key CH:sent<, key CH:rcvd<, key CHV:<, key CH:open<, $deref(w).$nodes, $deref(w).$dispatched, $deref(w).$freed, $deref(w).tickers, $tickerStopped, $deref(w).eventLoopSignal, $deref(w).errorChan,
+//@            $deref(w).$disp, key G:$poolputs, $usercalls, $deref(w).$listeners, $deref(w).$armed
+//@   ensures [stopped] old($deref(w).status) == running || old($deref(w).status) == paused ==> $deref(w).status == stopped
+//@   ghost after call invoke.Done: assume result != $deref(w).eventLoopSignal
+
+// ---------------------------------------------------------------- binders (worker_binder.go)
+// Binding a queue registers it exactly once and starts the worker only if it was Initiated; a Running worker stays as it is (start refuses).
+// start() must not be reached from Paused / Stopped (it would report Running on a second dispatcher / on nil channels).
+//@ func workerBinder.handleQueueSubscription
+//@   props C14 C17 C03
+//@   requires wb.worker != nil && wb.worker.metrics != nil && ChanOK(wb.worker.eventLoopSignal)
+//@   modifies $submitted(wb.worker.metrics), $chan(wb.worker.eventLoopSignal)
+//@   ensures [enqueued] action == "enqueued" ==> $submitted(wb.worker.metrics) == old($submitted(wb.worker.metrics)) + 1
+//@                        && (wb.worker.eventLoopSignal != nil && $cap(wb.worker.eventLoopSignal) >= 1 ==> $len(wb.worker.eventLoopSignal) >= 1)
+//@   ensures [other]    action != "enqueued" ==> $submitted(wb.worker.metrics) == old($submitted(wb.worker.metrics)) && $sent(wb.worker.eventLoopSignal) == old($sent(wb.worker.eventLoopSignal))
+
+//@ func workerBinder.WithQueue
+//@   props C14 C15 C02 C18
+//@   requires wb.worker != nil && RI_worker(wb.worker) && len(wb.worker.queues.Manager.items) < MaxInt - 2 && wb.worker.Configs.idleWorkerExpiryDuration >= 0 && len(wb.worker.tickers) < MaxInt && q != nil
+//@   modifies wb.worker.status, $alloc, $spawned, wb.worker.$disp, wb.worker.$reapers, wb.worker.$listeners, wb.worker.$nodes, wb.worker.tickers, wb.worker.tickers[**], key G:$tickersLive, $chan(wb.worker.eventLoopSignal), linkedlist.Node.next, linkedlist.Node.prev, wb.worker.pool.List.len, wb.worker.pool.List.$at, wb.worker.pool.List.$pos, wb.worker.pool.List.$in, wb.worker.queues.Manager.items, wb.worker.queues.Manager.items[**]
+//@   ensures [once]      len(wb.worker.queues.Manager.items) == old(len(wb.worker.queues.Manager.items)) + 1 && wb.worker.queues.Manager.items[old(len(wb.worker.queues.Manager.items))] == q
+//@   ensures [kept]      forall i int :: 0 <= i && i < old(len(wb.worker.queues.Manager.items)) ==> wb.worker.queues.Manager.items[i] == old(wb.worker.queues.Manager.items[i])
+//@   ensures [initiated] old(wb.worker.status) == initiated ==> wb.worker.status == running && wb.worker.$disp == 1
+//@   ensures [otherwise] old(wb.worker.status) != initiated ==> wb.worker.status == old(wb.worker.status) && wb.worker.$disp == old(wb.worker.$disp) && wb.worker.$nodes == old(wb.worker.$nodes)
+//@   ensures [ri]        RI_worker(wb.worker)
+
+//@ func workerBinder.BindQueue
+//@   props C14 C15 C02 C18
+//@   requires wb.worker != nil && RI_worker(wb.worker) && len(wb.worker.queues.Manager.items) < MaxInt - 2 && wb.worker.Configs.idleWorkerExpiryDuration >= 0 && len(wb.worker.tickers) < MaxInt
+//@   modifies wb.worker.status, $alloc, $spawned, wb.worker.$disp, wb.worker.$reapers, wb.worker.$listeners, wb.worker.$nodes, wb.worker.tickers, wb.worker.tickers[**], key G:$tickersLive, $chan(wb.worker.eventLoopSignal), linkedlist.Node.next, linkedlist.Node.prev, wb.worker.pool.List.len, wb.worker.pool.List.$at, wb.worker.pool.List.$pos, wb.worker.pool.List.$in, wb.worker.queues.Manager.items, wb.worker.queues.Manager.items[**]
+//@   ensures [once]      len(wb.worker.queues.Manager.items) == old(len(wb.worker.queues.Manager.items)) + 1
+//@   ensures [kept]      forall i int :: 0 <= i && i < old(len(wb.worker.queues.Manager.items)) ==> wb.worker.queues.Manager.items[i] == old(wb.worker.queues.Manager.items[i])
+//@   ensures [initiated] old(wb.worker.status) == initiated ==> wb.worker.status == running && wb.worker.$disp == 1
+//@   ensures [otherwise] old(wb.worker.status) != initiated ==> wb.worker.status == old(wb.worker.status) && wb.worker.$disp == old(wb.worker.$disp) && wb.worker.$nodes == old(wb.worker.$nodes)
+//@   ensures [ri]        RI_worker(wb.worker)
+
+//@ func workerBinder.WithPriorityQueue
+//@   props C14 C15 C02 C18
+//@   requires wb.worker != nil && RI_worker(wb.worker) && len(wb.worker.queues.Manager.items) < MaxInt - 2 && wb.worker.Configs.idleWorkerExpiryDuration >= 0 && len(wb.worker.tickers) < MaxInt && pq != nil
+//@   modifies wb.worker.status, $alloc, $spawned, wb.worker.$disp, wb.worker.$reapers, wb.worker.$listeners, wb.worker.$nodes, wb.worker.tickers, wb.worker.tickers[**], key G:$tickersLive, $chan(wb.worker.eventLoopSignal), linkedlist.Node.next, linkedlist.Node.prev, wb.worker.pool.List.len, wb.worker.pool.List.$at, wb.worker.pool.List.$pos, wb.worker.pool.List.$in, wb.worker.queues.Manager.items, wb.worker.queues.Manager.items[**]
+//@   ensures [once]      len(wb.worker.queues.Manager.items) == old(len(wb.worker.queues.Manager.items)) + 1 && wb.worker.queues.Manager.items[old(len(wb.worker.queues.Manager.items))] == pq
+//@   ensures [kept]      forall i int :: 0 <= i && i < old(len(wb.worker.queues.Manager.items)) ==> wb.worker.queues.Manager.items[i] == old(wb.worker.queues.Manager.items[i])
+//@   ensures [initiated] old(wb.worker.status) == initiated ==> wb.worker.status == running && wb.worker.$disp == 1
+//@   ensures [otherwise] old(wb.worker.status) != initiated ==> wb.worker.status == old(wb.worker.status) && wb.worker.$disp == old(wb.worker.$disp) && wb.worker.$nodes == old(wb.worker.$nodes)
+//@   ensures [ri]        RI_worker(wb.worker)
+
+//@ func workerBinder.BindPriorityQueue
+//@   props C14 C15 C02 C18
+//@   requires wb.worker != nil && RI_worker(wb.worker) && len(wb.worker.queues.Manager.items) < MaxInt - 2 && wb.worker.Configs.idleWorkerExpiryDuration >= 0 && len(wb.worker.tickers) < MaxInt
+//@   modifies wb.worker.status, $alloc, $spawned, wb.worker.$disp, wb.worker.$reapers, wb.worker.$listeners, wb.worker.$nodes, wb.worker.tickers, wb.worker.tickers[**], key G:$tickersLive, $chan(wb.worker.eventLoopSignal), linkedlist.Node.next, linkedlist.Node.prev, wb.worker.pool.List.len, wb.worker.pool.List.$at, wb.worker.pool.List.$pos, wb.worker.pool.List.$in, wb.worker.queues.Manager.items, wb.worker.queues.Manager.items[**]
+//@   ensures [once]      len(wb.worker.queues.Manager.items) == old(len(wb.worker.queues.Manager.items)) + 1
+//@   ensures [kept]      forall i int :: 0 <= i && i < old(len(wb.worker.queues.Manager.items)) ==> wb.worker.queues.Manager.items[i] == old(wb.worker.queues.Manager.items[i])
+//@   ensures [initiated] old(wb.worker.status) == initiated ==> wb.worker.status == running && wb.worker.$disp == 1
+//@   ensures [otherwise] old(wb.worker.status) != initiated ==> wb.worker.status == old(wb.worker.status) && wb.worker.$disp == old(wb.worker.$disp) && wb.worker.$nodes == old(wb.worker.$nodes)
+//@   ensures [ri]        RI_worker(wb.worker)
+
+//@ func errWorkerBinder.WithQueue
+//@   props C14 C15 C02 C18
+//@   requires ewb.worker != nil && RI_worker(ewb.worker) && len(ewb.worker.queues.Manager.items) < MaxInt - 2 && ewb.worker.Configs.idleWorkerExpiryDuration >= 0 && len(ewb.worker.tickers) < MaxInt && q != nil
+//@   modifies ewb.worker.status, $alloc, $spawned, ewb.worker.$disp, ewb.worker.$reapers, ewb.worker.$listeners, ewb.worker.$nodes, ewb.worker.tickers, ewb.worker.tickers[**], key G:$tickersLive, $chan(ewb.worker.eventLoopSignal), linkedlist.Node.next, linkedlist.Node.prev, ewb.worker.pool.List.len, ewb.worker.pool.List.$at, ewb.worker.pool.List.$pos, ewb.worker.pool.List.$in, ewb.worker.queues.Manager.items, ewb.worker.queues.Manager.items[**]
+//@   ensures [once]      len(ewb.worker.queues.Manager.items) == old(len(ewb.worker.queues.Manager.items)) + 1 && ewb.worker.queues.Manager.items[old(len(ewb.worker.queues.Manager.items))] == q
+//@   ensures [kept]      forall i int :: 0 <= i && i < old(len(ewb.worker.queues.Manager.items)) ==> ewb.worker.queues.Manager.items[i] == old(ewb.worker.queues.Manager.items[i])
+//@   ensures [initiated] old(ewb.worker.status) == initiated ==> ewb.worker.status == running && ewb.worker.$disp == 1
+//@   ensures [otherwise] old(ewb.worker.status) != initiated ==> ewb.worker.status == old(ewb.worker.status) && ewb.worker.$disp == old(ewb.worker.$disp) && ewb.worker.$nodes == old(ewb.worker.$nodes)
+//@   ensures [ri]        RI_worker(ewb.worker)
+
+//@ func errWorkerBinder.BindQueue
+//@   props C14 C15 C02 C18
+//@   requires ewb.worker != nil && RI_worker(ewb.worker) && len(ewb.worker.queues.Manager.items) < MaxInt - 2 && ewb.worker.Configs.idleWorkerExpiryDuration >= 0 && len(ewb.worker.tickers) < MaxInt
+//@   modifies ewb.worker.status, $alloc, $spawned, ewb.worker.$disp, ewb.worker.$reapers, ewb.worker.$listeners, ewb.worker.$nodes, ewb.worker.tickers, ewb.worker.tickers[**], key G:$tickersLive, $chan(ewb.worker.eventLoopSignal), linkedlist.Node.next, linkedlist.Node.prev, ewb.worker.pool.List.len, ewb.worker.pool.List.$at, ewb.worker.pool.List.$pos, ewb.worker.pool.List.$in, ewb.worker.queues.Manager.items, ewb.worker.queues.Manager.items[**]
+//@   ensures [once]      len(ewb.worker.queues.Manager.items) == old(len(ewb.worker.queues.Manager.items)) + 1
+//@   ensures [kept]      forall i int :: 0 <= i && i < old(len(ewb.worker.queues.Manager.items)) ==> ewb.worker.queues.Manager.items[i] == old(ewb.worker.queues.Manager.items[i])
+//@   ensures [initiated] old(ewb.worker.status) == initiated ==> ewb.worker.status == running && ewb.worker.$disp == 1
+//@   ensures [otherwise] old(ewb.worker.status) != initiated ==> ewb.worker.status == old(ewb.worker.status) && ewb.worker.$disp == old(ewb.worker.$disp) && ewb.worker.$nodes == old(ewb.worker.$nodes)
+//@   ensures [ri]        RI_worker(ewb.worker)
+
+//@ func errWorkerBinder.WithPriorityQueue
+//@   props C14 C15 C02 C18
+//@   requires ewb.worker != nil && RI_worker(ewb.worker) && len(ewb.worker.queues.Manager.items) < MaxInt - 2 && ewb.worker.Configs.idleWorkerExpiryDuration >= 0 && len(ewb.worker.tickers) < MaxInt && pq != nil
+//@   modifies ewb.worker.status, $alloc, $spawned, ewb.worker.$disp, ewb.worker.$reapers, ewb.worker.$listeners, ewb.worker.$nodes, ewb.worker.tickers, ewb.worker.tickers[**], key G:$tickersLive, $chan(ewb.worker.eventLoopSignal), linkedlist.Node.next, linkedlist.Node.prev, ewb.worker.pool.List.len, ewb.worker.pool.List.$at, ewb.worker.pool.List.$pos, ewb.worker.pool.List.$in, ewb.worker.queues.Manager.items, ewb.worker.queues.Manager.items[**]
+//@   ensures [once]      len(ewb.worker.queues.Manager.items) == old(len(ewb.worker.queues.Manager.items)) + 1 && ewb.worker.queues.Manager.items[old(len(ewb.worker.queues.Manager.items))] == pq
+//@   ensures [kept]      forall i int :: 0 <= i && i < old(len(ewb.worker.queues.Manager.items)) ==> ewb.worker.queues.Manager.items[i] == old(ewb.worker.queues.Manager.items[i])
+//@   ensures [initiated] old(ewb.worker.status) == initiated ==> ewb.worker.status == running && ewb.worker.$disp == 1
+//@   ensures [otherwise] old(ewb.worker.status) != initiated ==> ewb.worker.status == old(ewb.worker.status) && ewb.worker.$disp == old(ewb.worker.$disp) && ewb.worker.$nodes == old(ewb.worker.$nodes)
+//@   ensures [ri]        RI_worker(ewb.worker)
+
+//@ func errWorkerBinder.BindPriorityQueue
+//@   props C14 C15 C02 C18
+//@   requires ewb.worker != nil && RI_worker(ewb.worker) && len(ewb.worker.queues.Manager.items) < MaxInt - 2 && ewb.worker.Configs.idleWorkerExpiryDuration >= 0 && len(ewb.worker.tickers) < MaxInt
+//@   modifies ewb.worker.status, $alloc, $spawned, ewb.worker.$disp, ewb.worker.$reapers, ewb.worker.$listeners, ewb.worker.$nodes, ewb.worker.tickers, ewb.worker.tickers[**], key G:$tickersLive, $chan(ewb.worker.eventLoopSignal), linkedlist.Node.next, linkedlist.Node.prev, ewb.worker.pool.List.len, ewb.worker.pool.List.$at, ewb.worker.pool.List.$pos, ewb.worker.pool.List.$in, ewb.worker.queues.Manager.items, ewb.worker.queues.Manager.items[**]
+//@   ensures [once]      len(ewb.worker.queues.Manager.items) == old(len(ewb.worker.queues.Manager.items)) + 1
+//@   ensures [kept]      forall i int :: 0 <= i && i < old(len(ewb.worker.queues.Manager.items)) ==> ewb.worker.queues.Manager.items[i] == old(ewb.worker.queues.Manager.items[i])
+//@   ensures [initiated] old(ewb.worker.status) == initiated ==> ewb.worker.status == running && ewb.worker.$disp == 1
+//@   ensures [otherwise] old(ewb.worker.status) != initiated ==> ewb.worker.status == old(ewb.worker.status) && ewb.worker.$disp == old(ewb.worker.$disp) && ewb.worker.$nodes == old(ewb.worker.$nodes)
+//@   ensures [ri]        RI_worker(ewb.worker)
+
+//@ func resultWorkerBinder.WithQueue
+//@   props C14 C15 C02 C18
+//@   requires rwb.worker != nil && RI_worker(rwb.worker) && len(rwb.worker.queues.Manager.items) < MaxInt - 2 && rwb.worker.Configs.idleWorkerExpiryDuration >= 0 && len(rwb.worker.tickers) < MaxInt && q != nil
+//@   modifies rwb.worker.status, $alloc, $spawned, rwb.worker.$disp, rwb.worker.$reapers, rwb.worker.$listeners, rwb.worker.$nodes, rwb.worker.tickers, rwb.worker.tickers[**], key G:$tickersLive, $chan(rwb.worker.eventLoopSignal), linkedlist.Node.next, linkedlist.Node.prev, rwb.worker.pool.List.len, rwb.worker.pool.List.$at, rwb.worker.pool.List.$pos, rwb.worker.pool.List.$in, rwb.worker.queues.Manager.items, rwb.worker.queues.Manager.items[**]
+//@   ensures [once]      len(rwb.worker.queues.Manager.items) == old(len(rwb.worker.queues.Manager.items)) + 1 && rwb.worker.queues.Manager.items[old(len(rwb.worker.queues.Manager.items))] == q
+//@   ensures [kept]      forall i int :: 0 <= i && i < old(len(rwb.worker.queues.Manager.items)) ==> rwb.worker.queues.Manager.items[i] == old(rwb.worker.queues.Manager.items[i])
+//@   ensures [initiated] old(rwb.worker.status) == initiated ==> rwb.worker.status == running && rwb.worker.$disp == 1
+//@   ensures [otherwise] old(rwb.worker.status) != initiated ==> rwb.worker.status == old(rwb.worker.status) && rwb.worker.$disp == old(rwb.worker.$disp) && rwb.worker.$nodes == old(rwb.worker.$nodes)
+//@   ensures [ri]        RI_worker(rwb.worker)
+
+//@ func resultWorkerBinder.BindQueue
+//@   props C14 C15 C02 C18
+//@   requires rwb.worker != nil && RI_worker(rwb.worker) && len(rwb.worker.queues.Manager.items) < MaxInt - 2 && rwb.worker.Configs.idleWorkerExpiryDuration >= 0 && len(rwb.worker.tickers) < MaxInt
+//@   modifies rwb.worker.status, $alloc, $spawned, rwb.worker.$disp, rwb.worker.$reapers, rwb.worker.$listeners, rwb.worker.$nodes, rwb.worker.tickers, rwb.worker.tickers[**], key G:$tickersLive, $chan(rwb.worker.eventLoopSignal), linkedlist.Node.next, linkedlist.Node.prev, rwb.worker.pool.List.len, rwb.worker.pool.List.$at, rwb.worker.pool.List.$pos, rwb.worker.pool.List.$in, rwb.worker.queues.Manager.items, rwb.worker.queues.Manager.items[**]
+//@   ensures [once]      len(rwb.worker.queues.Manager.items) == old(len(rwb.worker.queues.Manager.items)) + 1
+//@   ensures [kept]      forall i int :: 0 <= i && i < old(len(rwb.worker.queues.Manager.items)) ==> rwb.worker.queues.Manager.items[i] == old(rwb.worker.queues.Manager.items[i])
+//@   ensures [initiated] old(rwb.worker.status) == initiated ==> rwb.worker.status == running && rwb.worker.$disp == 1
+//@   ensures [otherwise] old(rwb.worker.status) != initiated ==> rwb.worker.status == old(rwb.worker.status) && rwb.worker.$disp == old(rwb.worker.$disp) && rwb.worker.$nodes == old(rwb.worker.$nodes)
+//@   ensures [ri]        RI_worker(rwb.worker)
+
+//@ func resultWorkerBinder.WithPriorityQueue
+//@   props C14 C15 C02 C18
+//@   requires rwb.worker != nil && RI_worker(rwb.worker) && len(rwb.worker.queues.Manager.items) < MaxInt - 2 && rwb.worker.Configs.idleWorkerExpiryDuration >= 0 && len(rwb.worker.tickers) < MaxInt && pq != nil
+//@   modifies rwb.worker.status, $alloc, $spawned, rwb.worker.$disp, rwb.worker.$reapers, rwb.worker.$listeners, rwb.worker.$nodes, rwb.worker.tickers, rwb.worker.tickers[**], key G:$tickersLive, $chan(rwb.worker.eventLoopSignal), linkedlist.Node.next, linkedlist.Node.prev, rwb.worker.pool.List.len, rwb.worker.pool.List.$at, rwb.worker.pool.List.$pos, rwb.worker.pool.List.$in, rwb.worker.queues.Manager.items, rwb.worker.queues.Manager.items[**]
+//@   ensures [once]      len(rwb.worker.queues.Manager.items) == old(len(rwb.worker.queues.Manager.items)) + 1 && rwb.worker.queues.Manager.items[old(len(rwb.worker.queues.Manager.items))] == pq
+//@   ensures [kept]      forall i int :: 0 <= i && i < old(len(rwb.worker.queues.Manager.items)) ==> rwb.worker.queues.Manager.items[i] == old(rwb.worker.queues.Manager.items[i])
+//@   ensures [initiated] old(rwb.worker.status) == initiated ==> rwb.worker.status == running && rwb.worker.$disp == 1
+//@   ensures [otherwise] old(rwb.worker.status) != initiated ==> rwb.worker.status == old(rwb.worker.status) && rwb.worker.$disp == old(rwb.worker.$disp) && rwb.worker.$nodes == old(rwb.worker.$nodes)
+//@   ensures [ri]        RI_worker(rwb.worker)
+
+//@ func resultWorkerBinder.BindPriorityQueue
+//@   props C14 C15 C02 C18
+//@   requires rwb.worker != nil && RI_worker(rwb.worker) && len(rwb.worker.queues.Manager.items) < MaxInt - 2 && rwb.worker.Configs.idleWorkerExpiryDuration >= 0 && len(rwb.worker.tickers) < MaxInt
+//@   modifies rwb.worker.status, $alloc, $spawned, rwb.worker.$disp, rwb.worker.$reapers, rwb.worker.$listeners, rwb.worker.$nodes, rwb.worker.tickers, rwb.worker.tickers[**], key G:$tickersLive, $chan(rwb.worker.eventLoopSignal), linkedlist.Node.next, linkedlist.Node.prev, rwb.worker.pool.List.len, rwb.worker.pool.List.$at, rwb.worker.pool.List.$pos, rwb.worker.pool.List.$in, rwb.worker.queues.Manager.items, rwb.worker.queues.Manager.items[**]
+//@   ensures [once]      len(rwb.worker.queues.Manager.items) == old(len(rwb.worker.queues.Manager.items)) + 1
+//@   ensures [kept]      forall i int :: 0 <= i && i < old(len(rwb.worker.queues.Manager.items)) ==> rwb.worker.queues.Manager.items[i] == old(rwb.worker.queues.Manager.items[i])
+//@   ensures [initiated] old(rwb.worker.status) == initiated ==> rwb.worker.status == running && rwb.worker.$disp == 1
+//@   ensures [otherwise] old(rwb.worker.status) != initiated ==> rwb.worker.status == old(rwb.worker.status) && rwb.worker.$disp == old(rwb.worker.$disp) && rwb.worker.$nodes == old(rwb.worker.$nodes)
+//@   ensures [ri]        RI_worker(rwb.worker)
+
+//@ func workerBinder.WithPersistentQueue
+//@   props C14 C15 C02 C18
+//@   requires wb.worker != nil && RI_worker(wb.worker) && len(wb.worker.queues.Manager.items) < MaxInt - 2 && wb.worker.Configs.idleWorkerExpiryDuration >= 0 && len(wb.worker.tickers) < MaxInt && pq != nil
+//@   modifies wb.worker.status, $alloc, $spawned, wb.worker.$disp, wb.worker.$reapers, wb.worker.$listeners, wb.worker.$nodes, wb.worker.tickers, wb.worker.tickers[**], key G:$tickersLive, $chan(wb.worker.eventLoopSignal), linkedlist.Node.next, linkedlist.Node.prev, wb.worker.pool.List.len, wb.worker.pool.List.$at, wb.worker.pool.List.$pos, wb.worker.pool.List.$in, wb.worker.queues.Manager.items, wb.worker.queues.Manager.items[**]
+//@   ensures [once]      len(wb.worker.queues.Manager.items) == old(len(wb.worker.queues.Manager.items)) + 1 && wb.worker.queues.Manager.items[old(len(wb.worker.queues.Manager.items))] == pq
+//@   ensures [kept]      forall i int :: 0 <= i && i < old(len(wb.worker.queues.Manager.items)) ==> wb.worker.queues.Manager.items[i] == old(wb.worker.queues.Manager.items[i])
+//@   ensures [initiated] old(wb.worker.status) == initiated ==> wb.worker.status == running && wb.worker.$disp == 1
+//@   ensures [otherwise] old(wb.worker.status) != initiated ==> wb.worker.status == old(wb.worker.status) && wb.worker.$disp == old(wb.worker.$disp) && wb.worker.$nodes == old(wb.worker.$nodes)
+//@   ensures [ri]        RI_worker(wb.worker)
+
+//@ func workerBinder.WithPersistentPriorityQueue
+//@   props C14 C15 C02 C18
+//@   requires wb.worker != nil && RI_worker(wb.worker) && len(wb.worker.queues.Manager.items) < MaxInt - 2 && wb.worker.Configs.idleWorkerExpiryDuration >= 0 && len(wb.worker.tickers) < MaxInt && pq != nil && len(wb.worker.queues.Manager.items) < MaxInt - 1
+//@   modifies wb.worker.status, $alloc, $spawned, wb.worker.$disp, wb.worker.$reapers, wb.worker.$listeners, wb.worker.$nodes, wb.worker.tickers, wb.worker.tickers[**], key G:$tickersLive, $chan(wb.worker.eventLoopSignal), linkedlist.Node.next, linkedlist.Node.prev, wb.worker.pool.List.len, wb.worker.pool.List.$at, wb.worker.pool.List.$pos, wb.worker.pool.List.$in, wb.worker.queues.Manager.items, wb.worker.queues.Manager.items[**]
+//@   ensures [once]      len(wb.worker.queues.Manager.items) == old(len(wb.worker.queues.Manager.items)) + 1 && wb.worker.queues.Manager.items[old(len(wb.worker.queues.Manager.items))] == pq
+//@   ensures [kept]      forall i int :: 0 <= i && i < old(len(wb.worker.queues.Manager.items)) ==> wb.worker.queues.Manager.items[i] == old(wb.worker.queues.Manager.items[i])
+//@   ensures [initiated] old(wb.worker.status) == initiated ==> wb.worker.status == running && wb.worker.$disp == 1
+//@   ensures [otherwise] old(wb.worker.status) != initiated ==> wb.worker.status == old(wb.worker.status) && wb.worker.$disp == old(wb.worker.$disp) && wb.worker.$nodes == old(wb.worker.$nodes)
+//@   ensures [ri]        RI_worker(wb.worker)
+
+//@ func workerBinder.WithDistributedQueue
+//@   props C14 C15 C02 C18
+//@   requires wb.worker != nil && RI_worker(wb.worker) && len(wb.worker.queues.Manager.items) < MaxInt - 2 && wb.worker.Configs.idleWorkerExpiryDuration >= 0 && len(wb.worker.tickers) < MaxInt && dq != nil
+//@   modifies wb.worker.status, $alloc, $spawned, wb.worker.$disp, wb.worker.$reapers, wb.worker.$listeners, wb.worker.$nodes, wb.worker.tickers, wb.worker.tickers[**], key G:$tickersLive, $chan(wb.worker.eventLoopSignal), linkedlist.Node.next, linkedlist.Node.prev, wb.worker.pool.List.len, wb.worker.pool.List.$at, wb.worker.pool.List.$pos, wb.worker.pool.List.$in, wb.worker.queues.Manager.items, wb.worker.queues.Manager.items[**], $subs(dq)
+//@   ensures [once]      len(wb.worker.queues.Manager.items) == old(len(wb.worker.queues.Manager.items)) + 1 && wb.worker.queues.Manager.items[old(len(wb.worker.queues.Manager.items))] == dq
+//@   ensures [kept]      forall i int :: 0 <= i && i < old(len(wb.worker.queues.Manager.items)) ==> wb.worker.queues.Manager.items[i] == old(wb.worker.queues.Manager.items[i])
+//@   ensures [initiated] old(wb.worker.status) == initiated ==> wb.worker.status == running && wb.worker.$disp == 1
+//@   ensures [otherwise] old(wb.worker.status) != initiated ==> wb.worker.status == old(wb.worker.status) && wb.worker.$disp == old(wb.worker.$disp) && wb.worker.$nodes == old(wb.worker.$nodes)
+//@   ensures [subscribed] $subs(dq) == old($subs(dq)) + 1
+//@   ensures [ri]        RI_worker(wb.worker)
+
+//@ func workerBinder.WithDistributedPriorityQueue
+//@   props C14 C15 C02 C18
+//@   requires wb.worker != nil && RI_worker(wb.worker) && len(wb.worker.queues.Manager.items) < MaxInt - 2 && wb.worker.Configs.idleWorkerExpiryDuration >= 0 && len(wb.worker.tickers) < MaxInt && dpq != nil
+//@   modifies wb.worker.status, $alloc, $spawned, wb.worker.$disp, wb.worker.$reapers, wb.worker.$listeners, wb.worker.$nodes, wb.worker.tickers, wb.worker.tickers[**], key G:$tickersLive, $chan(wb.worker.eventLoopSignal), linkedlist.Node.next, linkedlist.Node.prev, wb.worker.pool.List.len, wb.worker.pool.List.$at, wb.worker.pool.List.$pos, wb.worker.pool.List.$in, wb.worker.queues.Manager.items, wb.worker.queues.Manager.items[**], $subs(dpq)
+//@   ensures [once]      len(wb.worker.queues.Manager.items) == old(len(wb.worker.queues.Manager.items)) + 1 && wb.worker.queues.Manager.items[old(len(wb.worker.queues.Manager.items))] == dpq
+//@   ensures [kept]      forall i int :: 0 <= i && i < old(len(wb.worker.queues.Manager.items)) ==> wb.worker.queues.Manager.items[i] == old(wb.worker.queues.Manager.items[i])
+//@   ensures [initiated] old(wb.worker.status) == initiated ==> wb.worker.status == running && wb.worker.$disp == 1
+//@   ensures [otherwise] old(wb.worker.status) != initiated ==> wb.worker.status == old(wb.worker.status) && wb.worker.$disp == old(wb.worker.$disp) && wb.worker.$nodes == old(wb.worker.$nodes)
+//@   ensures [subscribed] $subs(dpq) == old($subs(dpq)) + 1
+//@   ensures [ri]        RI_worker(wb.worker)
+
+
+//@ func newQueues
+//@   props C14
+//@   modifies $alloc
+//@   ensures result != nil && $typeof(result) == $tid(*workerBinder) && $as(*workerBinder, result).worker == worker
+//@ func newErrQueues
+//@   props C14
+//@   modifies $alloc
+//@   ensures result != nil && $typeof(result) == $tid(*errWorkerBinder) && $as(*errWorkerBinder, result).worker == worker
+//@ func newResultQueues
+//@   props C14
+//@   modifies $alloc
+//@   ensures result != nil && $typeof(result) == $tid(*resultWorkerBinder) && $as(*resultWorkerBinder, result).worker == worker
+//@ func NewDistributedQueue
+//@   props C12
+//@   modifies $alloc
+//@   ensures result != nil && $typeof(result) == $tid(*distributedQueue) && $as(*distributedQueue, result).IDistributedQueue == internalQueue
+//@ func NewDistributedPriorityQueue
+//@   props C12
+//@   modifies $alloc
+//@   ensures result != nil && $typeof(result) == $tid(*distributedPriorityQueue) && $as(*distributedPriorityQueue, result).IDistributedPriorityQueue == internalQueue
+
+// ---------------------------------------------------------------- the idle-worker reaper (one run per tick)
+// On every tick: if more than the minimum are idle, the idle nodes beyond the minimum that have expired are removed from the list, stopped
+// and cached. A node is stopped only after it was seen linked into the list (evidence of idleness) -- never a node taken by the dispatcher.
+//@ func worker.goRemoveIdleWorkers$1
+//@   props C18 C01 C03
+//@   requires $deref(ticker) != nil && $deref(w) != nil && PoolOK($deref(w)) && $deref(w).Configs.minIdleWorkerRatio <= 100 && $deref(w).concurrency * $deref(w).Configs.minIdleWorkerRatio <= MaxUint32
+//@   requires forall n *linkedlist.Node[pool.Node[JobType]] {n.Value.lastUsed} :: n.Value.lastUsed == nil || $typeof(n.Value.lastUsed) == $tid(time.Time)
+//@   modifies $alloc, linkedlist.Node.next, linkedlist.Node.prev, $deref(w).pool.List.len, $deref(w).pool.List.$at, $deref(w).pool.List.$pos, $deref(w).pool.List.$in,
+//@            key CH:sent<, key CH:rcvd<, key CHV:<, key CH:open<, key G:$poolputs
+//@   loop 1: invariant [outer] PoolOK($deref(w))
+//@   loop 2: invariant [inner] PoolOK($deref(w)) && 0 <= rangeindex + 1 && rangeindex + 1 <= len($ranged)
+//@   loop 2: invariant [nodes] (forall m int :: 0 <= m && m < len($ranged) ==> $ranged[m] != nil && $alloc($ranged[m])) && (forall a int, b int {$ranged[a], $ranged[b]} :: 0 <= a && a < b && b < len($ranged) ==> $ranged[a] != $ranged[b])
+//@   loop 2: invariant [rest]  forall m int :: rangeindex + 1 <= m && m < len($ranged) ==> $deref(w).pool.List.$in[$ranged[m]] && $ranged[m] != $addr($deref(w).pool.List.root)
+//@   ghost before call pool.Node.GetLastUsed: $evidence := false
+//@   ghost after call linkedlist.Node.Next when result != nil: $evidence := true
+//@   ghost after call linkedlist.Node.Prev when result != nil: $evidence := true
+//@   assert [stop-only-idle] before call pool.Node.Stop: $evidence
